@@ -15,6 +15,24 @@ CHECKS = {
             "Trusts the reference reading 'a<=b iff arrival via a is never later than via b for every departure "
             "time'; reference-incomparable pairs carry no obligation.",
             "DESIGN.md 4/C08"),
+    "C12": ("exploration",
+            "exhaustive enumeration of model descriptions and set-operator tables vs brute-force bitmask solver; "
+            "Hypothesis set-expression trees; sampled end-to-end World.start/connect",
+            "All 9^5*3*3 model descriptions over a 3-name universe (+ fresh name) are classified by parse_attrs and "
+            "by a brute-force constraint solver (accept iff exactly one consistent classification exists) and "
+            "compared by membership; the complete operator table of finite/co-finite sets and generated "
+            "expression trees are compared with a bitmask model; sampled descriptions go through World.start and "
+            "connect. Exhaustive on the bounded domain.",
+            "Trusts the documented type defaults encoded in the solver (calibrated on rows of the repository's own "
+            "table); universe of 3 names.",
+            "DESIGN.md 4/C12"),
+    "C18": ("exploration",
+            "exhaustive size/flag/seed grid + Hypothesis sizes up to 200, validity predicates over recorded connect calls",
+            "Every (|src| 0..12, |dest| 1..8, evenly, max_connects) inside the documented precondition x 50 seeds is "
+            "run against a recording World and checked for: each source once, only dest_set members, even spread / "
+            "max_connects cap, returned set exact, no exception; a sample runs against a real World.",
+            "The helpers are assumed to use World.connect only; the seed of the global random module is part of the case.",
+            "DESIGN.md 4/C18"),
 }
 
 NOT_YET = {}
